@@ -406,7 +406,7 @@ def plant_read_write(rng, w):
     name = "rw%d" % len(w.actions)
     w.actions.append({"name": name, "params": params, "group": False, "pre": pre, "eff": ["and"] + items})
     w.features.add("read-write")
-    return name
+    return {"name": name, "F": F, "params": params}
 
 
 # ----- the small scope: one action over {p/1, q/0, f/1, h/0}, types u < t, objects o0 - t, o1 - u
@@ -582,7 +582,7 @@ def generate(rng, tier):
         worlds.append(build_world(rng, w, tier, n_states=2, calls_per_action=3))
     for _ in range(n // 2):
         w = G.gen_world(rng, max_actions=1)
-        name = plant_read_write(rng, w)
+        name = plant_read_write(rng, w)["name"]
         worlds.append(build_world(rng, w, tier, n_states=2, calls_per_action=2, stream="read-write", seq_only=[name], seq_calls=3))
     k = 0
     while k < n // 4:
